@@ -239,7 +239,7 @@ func c05Spec() propSpec {
 		profile: genProfile{
 			w:              map[string]int{"ph": 3, "vote": 12, "round": 3, "sment": 1, "smact": 1, "stall": 1, "read": 1, "conc": 2},
 			phVariants:     []int{phFresh, phFresh, phAltNext, phBadSig, phAnnotated},
-			pcpVariants:    []int{pcpExact, pcpExact, pcpExact, pcpCorruptSig, pcpBelowQuorum, pcpWrongPKH, pcpOtherRoundCert, pcpOtherRoundCert, pcpExtraNil, pcpForgedSide, pcpForgedSide},
+			pcpVariants:    []int{pcpExact, pcpExact, pcpExact, pcpCorruptSig, pcpBelowQuorum, pcpWrongPKH, pcpOtherRoundCert, pcpOtherRoundCert, pcpExtraNil, pcpForgedSide, pcpForgedSide, pcpOwnSet, pcpOwnSet},
 			voteCorr:       allVariants(vcVariants),
 			replayVariants: []int{rvHonest},
 			pkhVariants:    []int{0, 0, 0, 0, 0, 1, 2, 3, 3},
